@@ -76,27 +76,57 @@ def run_vd(ids, timeout=600):
 
 
 def observed_branch_names(fam, o):
-    """(enum, variant) -> the Avro name of the branch found at the variant's position in the derived union (None if the
-    derived graph does not have a union of the right size there): used only to give the variants the serde names the
-    property presupposes when the naming differs from the documented one"""
+    """(enum, variant) -> the Avro name of the branch found at the variant's position in the derived union, located by walking the
+    type against the derived graph (fields and variants by position).  Used only to give the variants the serde names the property
+    presupposes when the derive names a branch differently from the documentation."""
     res = {}
     if o.get("build") != "ok":
         return res
     G = o["nodes"]
-    unions = [n for n in G if n["k"] == "union"]
-    for d in fam["defs"]:
-        if d["kind"] != "union_enum":
-            continue
-        for n in unions:
-            if len(n["variants"]) != len(d["variants"]):
-                continue
-            names = [bytes(codec.branch_name(G[k - 1])).decode() for k in n["variants"]]
-            pred = [dg.branch_name(fam, d["rust"], v) for v in d["variants"]]
-            # the same union if the unnamed branches agree
-            if all(a == b or "." in b or "." in a for a, b in zip(names, pred)):
-                for v, a in zip(d["variants"], names):
-                    res[(d["rust"], v["n"])] = a
-                break
+    dn = dg.defs_by_name(fam)
+    seen = set()
+
+    def node(k):
+        return G[k - 1] if isinstance(k, int) and 1 <= k <= len(G) else None
+
+    def walk(te, k, args=()):
+        n = node(k)
+        if n is None:
+            return
+        te = dg.peel(te)
+        kind = te["k"]
+        if kind == "param":
+            return walk(args[te["i"]], k)
+        if kind == "opt":
+            if n["k"] == "union" and len(n["variants"]) == 2:
+                walk(te["t"], n["variants"][1], args)
+        elif kind == "vec":
+            if n["k"] == "array":
+                walk(te["t"], n["items"], args)
+        elif kind in ("map", "hmap"):
+            if n["k"] == "map":
+                walk(te["t"], n["values"], args)
+        elif kind == "ref":
+            d = dn[te["d"]]
+            a = [dg.subst(x, args) if args else x for x in te["args"]]
+            key = (d["rust"], json.dumps(a, sort_keys=True), k)
+            if key in seen:
+                return
+            seen.add(key)
+            if d["kind"] == "struct" and n["k"] == "record" and len(n["fields"]) == len(d["fields"]):
+                for f, nf in zip(d["fields"], n["fields"]):
+                    walk(f["t"], nf["t"], a)
+            elif d["kind"] == "newtype":
+                walk(d["t"], k, a)
+            elif d["kind"] == "union_enum" and n["k"] == "union" and len(n["variants"]) == len(d["variants"]):
+                for v, vk in zip(d["variants"], n["variants"]):
+                    vn = node(vk)
+                    if vn is not None:
+                        res.setdefault((d["rust"], v["n"]), bytes(codec.branch_name(vn)).decode())
+                    if v["t"] is not None:
+                        walk(v["t"], vk, a)
+
+    walk(fam["root"], 1)
     return res
 
 
